@@ -901,6 +901,23 @@ func c20GenOverflow(r *vrng, id int) *c20Case {
 	return c
 }
 
+// below the threshold: a listener that does not return while up to 60 further
+// messages are published must get all of them afterwards
+func c20GenBurst(r *vrng, id int) *c20Case {
+	c := &c20Case{Id: id, Mode: 1, Gen: "burst", NL: 3}
+	c.Targets = c20GenTargets(r, 2, true)
+	n := 40 + r.intn(21)
+	c.Ops = []c20Op{
+		{K: "reg", T: 0, L: 0}, {K: "reg", T: 0, L: 1}, {K: "reg", T: 1, L: 2}, {K: "gate", L: 0}, {K: "gate", L: 1},
+		{K: "pub", T: 0, M: 1},
+		{K: "pubn", T: 0, M: 2, N: n},
+		{K: "pub", T: 1, M: 500},
+		{K: "ungate", L: 0}, {K: "ungate", L: 1},
+		{K: "pub", T: 0, M: 300},
+	}
+	return c
+}
+
 // a listener that is unregistered and registered again while the message it
 // already got is still being handed to the others must not get it again
 func c20GenRereg(r *vrng, id int) *c20Case {
@@ -1058,9 +1075,9 @@ func TestVerifC20(t *testing.T) {
 			cases = append(cases, &cs[i])
 		}
 	} else {
-		nPlain, nGated, nOver, nRereg, nConc := 120, 120, 6, 25, 40
+		nPlain, nGated, nOver, nBurst, nRereg, nConc := 120, 120, 6, 4, 25, 40
 		if env.thorough() {
-			nPlain, nGated, nOver, nRereg, nConc = 1500, 1500, 30, 300, 500
+			nPlain, nGated, nOver, nBurst, nRereg, nConc = 1500, 1500, 30, 30, 300, 500
 		}
 		id := 0
 		for i := 0; i < nPlain; i++ {
@@ -1073,6 +1090,10 @@ func TestVerifC20(t *testing.T) {
 		}
 		for i := 0; i < nOver; i++ {
 			cases = append(cases, c20GenOverflow(newVrng(env.seed, uint64(id)), id))
+			id++
+		}
+		for i := 0; i < nBurst; i++ {
+			cases = append(cases, c20GenBurst(newVrng(env.seed, uint64(id)), id))
 			id++
 		}
 		for i := 0; i < nRereg; i++ {
